@@ -4,6 +4,7 @@ C09 — variables and lambdas are referentially transparent and lexically scoped
 import FendModel.Model.Scope
 import FendModel.Proofs.ScopeLet
 import FendModel.Proofs.ScopeBetaFull
+import FendModel.Proofs.ScopeLetFull
 
 namespace Fend.C09
 open Fend.Scope
@@ -190,6 +191,36 @@ theorem let_transparent (bi : List (String × Rat)) (x : String) (e : Expr) (q :
     (b : Expr) (hb : plainBody b = true) (fuel : Nat) (hf : depth (subst x e b) ≤ fuel) (hfe : depth e + 1 ≤ fuel) (vs : Vars) :
     (eval bi (fuel + 1) (.seq (.assign x e) b) .nil vs).1 = (eval bi fuel (subst x e b) .nil vs).1 :=
   let_statement bi x e q he hq b hb fuel hf hfe vs
+
+/-- **binding a name and using it = writing the parenthesised expression in its place, for ARBITRARY bodies**: with `e` a closed
+arithmetic expression of value `q`, `x = e; b` and `b[x := (e)]` give related results — the same error, the same number or unit,
+closures differing only by that substitution — and related variables, whenever `b` neither re-binds nor re-assigns `x` and the
+values already stored do not mention `x` (`hgood`: each is related to itself; numbers, unit and closures without `x` are).
+The right side re-evaluates `(e)` at every use, so it is given `depth e + 1` more fuel; the statement is up to fuel exhaustion
+of the left side (first disjunct of `ResR`). -/
+theorem let_general (bi : List (String × Rat)) (x : String) (e : Expr) (q : Rat) (b : Expr) (he : closedArith e = true) (hq : ceval e = .ok q)
+    (hb : LetF.HygL x b = true) (vs : Vars)
+    (hgood : ∀ y, y ≠ x → lookup vs y = none ∨ ∃ v, lookup vs y = some v ∧ LetF.VR x e v v)
+    (F : Nat) (hF : depth e + 1 ≤ F) :
+    LetF.ResR x e q (eval bi (F + 1) (.seq (.assign x e) b) .nil vs) (eval bi (F + (depth e + 1)) (subst x e b) .nil vs) :=
+  LetF.let_full x e q bi b he hq hb vs hgood F hF
+
+theorem let_general_observable (bi : List (String × Rat)) (x : String) (e : Expr) (q : Rat) (b : Expr) (he : closedArith e = true) (hq : ceval e = .ok q)
+    (hb : LetF.HygL x b = true) (vs : Vars)
+    (hgood : ∀ y, y ≠ x → lookup vs y = none ∨ ∃ v, lookup vs y = some v ∧ LetF.VR x e v v)
+    (F : Nat) (hF : depth e + 1 ≤ F) :
+    (∀ r, (eval bi (F + 1) (.seq (.assign x e) b) .nil vs).1 = .ok (.num r) →
+      (eval bi (F + (depth e + 1)) (subst x e b) .nil vs).1 = .ok (.num r)) ∧
+    ((eval bi (F + 1) (.seq (.assign x e) b) .nil vs).1 = .ok .unit →
+      (eval bi (F + (depth e + 1)) (subst x e b) .nil vs).1 = .ok .unit) ∧
+    (∀ er, er ≠ .fuel → (eval bi (F + 1) (.seq (.assign x e) b) .nil vs).1 = .error er →
+      (eval bi (F + (depth e + 1)) (subst x e b) .nil vs).1 = .error er) :=
+  LetF.let_full_observable x e q bi b he hq hb vs hgood F hF
+
+-- non-vacuity: b = `g = (y: y * x); g (x + 1)` uses x under a lambda stored in a variable and as an argument; no prior variables
+example : LetF.HygL "x" (.seq (.assign "g" (.lam "y" (.bop .mul (.var "y") (.var "x")))) (.app (.var "g") (.bop .add (.var "x") (.num 1)))) = true ∧
+    (∀ y, y ≠ "x" → lookup ([] : Vars) y = none ∨ ∃ v, lookup ([] : Vars) y = some v ∧ LetF.VR "x" (.num 2) v v) :=
+  ⟨by decide, fun _ _ => Or.inl rfl⟩
 
 -- non-vacuity: `(\x. x * x + k) (2 + 1)` with k = 10 evaluates to 19 both ways
 example : (eval [] 10 (.app (.lam "x" (.bop .add (.bop .mul (.var "x") (.var "x")) (.var "k"))) (.bop .add (.num 2) (.num 1))) .nil
